@@ -199,7 +199,7 @@ def main():
             "quick_cmd": "bin/check %s quick" % pid,
             "thorough_cmd": "bin/check %s thorough" % pid,
             "evidence_file": "/verif/evidence/%s.json" % pid,
-            "replay_cmd_template": "cat {path}",
+            "replay_cmd_template": "bin/replay {path}",
             "engine": "tla-replay",
             "level_claimed": {"category": c["category"], "text": c["text"], "design_ref": c["design_ref"]},
             "level_note": c["note"],
